@@ -16,7 +16,7 @@ from ref import semantics as sem
 from sim import gen
 from sim.engine import keyed_rng
 from sim.spec import spec_kinds
-from .base import Check, Verdict, resolve_perturb
+from .base import Check, Verdict, resolve_perturb, engine_nonoptimal
 
 OBJECTIVES = ["MinimizeMakespan", "MinimizeFlowtime", "TasksStartLatest", "TasksStartEarliest", "Priorities", "MinimizeGreatestStartTime",
               "MaximizeResourceUtilization", "MinimizeResourceCost", "MaximizeIndicator", "MinimizeIndicator", "MaximizeIndicator", "MinimizeIndicator"]
@@ -224,7 +224,12 @@ class C07(Check):
                                 v.violate("C07", f"not_optimal(better_exists)/{exit_tag}", kinds, {"returned": val, "better": xval}, evA["seq"], "A")
                         elif st.get("why") == "unknown":
                             v.probe("examiner_inconclusive")
-                if evB is not None and evB.get("outcome") == "solution" and not evB.get("faults"):
+                nonopt = engine_nonoptimal(evB) if evB is not None else None
+                if nonopt is not None:
+                    # z3.Optimize handed out a model that is not optimal for its own assertion set
+                    prB = result["clients"]["B"]["config"].get("optimize_priority")
+                    v.violate("C07", f"engine_nonoptimal/{prB}", ["z3.Optimize"], nonopt, evB["seq"], "B")
+                elif evB is not None and evB.get("outcome") == "solution" and not evB.get("faults"):
                     prB = result["clients"]["B"]["config"].get("optimize_priority")
                     bval = (evB.get("model") or {}).get("OBJ")
                     fb = self.evaluate_event(plan, result, evB)
